@@ -116,6 +116,27 @@ CHECKS['C18'] = dict(
     note=TB + 'The splitting simulation itself is not run; its Metropolis ratio is exp(log p_new - log p_prev) of the checked function.',
     technique='Coq theorems over Q (product form, normalisation by induction) + kernel-evaluated exhaustive correspondence on tiny codes')
 
+CHECKS['C13'] = dict(
+    category='proof',
+    text=('Unbounded Coq theorems on the model of the range expansion (any element types): the number of simulations is the product of '
+          'the axis lengths; a tuple is produced iff each component was requested (none dropped, nothing else); no duplicates when no '
+          'axis repeats a value; a list of ranges is the concatenation; a parameter range is never empty. Kernel-evaluated: index tuples '
+          'of the simulations the real read_input_dict builds = model product in order, for random specs in all three forms; registry '
+          'names = class names. Round trip from recorded inputs is a differential run.'),
+    design_ref='DESIGN.md section 5 C13',
+    note=TB + 'Canonical form of a requested parameter set = params of the object built directly from it (implementation constructors as oracle).',
+    technique='Coq theorems (Cartesian-product expansion: length, membership, NoDup) + kernel-evaluated order correspondence')
+CHECKS['C19'] = dict(
+    category='proof',
+    text=('Unbounded Coq theorems over Q on the model of read_range_input / direction-from-bias: on a grid where max-min is a whole '
+          'number of steps the values are exactly the arithmetic progression ending at max; no value is ever beyond max; the direction '
+          'sums to 1 and its biased component is eta times the rest; infinite bias is pure noise. Kernel-evaluated correspondence on '
+          'decimal-grid specs and on every file written by real generate-input invocations (read back with read_input_json), incl. '
+          'sequences sharing (bias, eta) in one process; one file per bias ratio, sizes x rates and nothing else.'),
+    design_ref='DESIGN.md section 5 C19',
+    note=TB + 'Float representation of decimals is compared to the exact rational to 1e-12; file naming/JSON assembly checked in Python.',
+    technique='Coq theorems over Q (floor/progression, bias direction) + kernel-evaluated correspondence through the CLI')
+
 NOT_APPLICABLE = {}
 
 PENDING = ['C02', 'C03', 'C04', 'C05', 'C06', 'C07', 'C08', 'C09', 'C10', 'C11', 'C12', 'C13', 'C14', 'C15',
